@@ -1,1 +1,101 @@
-Require Import QV.C07.Model QV.C07.Proofs.
+(* C07 — property theorems only.  Statements are about [node_step]/[node_run] of Model.v, the very
+   functions the correspondence evaluates against qmi.core.pubsub.SignalManager, for EVERY input
+   sequence a node can see (API calls of any number of threads interleaved at handler / lock-region
+   granularity, and any messages from peers: [reachable] only excludes a message whose source is
+   the node itself and subscription requests naming objects with a '.').  A receiver's queue is the
+   projection of [n_log] on its id; [cnt nm j r log] counts the records of publication j of context
+   nm in the queue of receiver r. *)
+From Coq Require Import List NArith ZArith Bool.
+Require Import QV.C07.Model QV.C07.ProofsLib QV.C07.Proofs QV.C07.ProofsThm.
+Import ListNotations.
+Open Scope N_scope.
+
+(* names accepted by is_valid_object_name contain no '.' *)
+Theorem C07_valid_name_no_dot : forall n, valid_name n = true -> nodot n = true.
+Proof. exact valid_nodot. Qed.
+Print Assumptions C07_valid_name_no_dot.
+
+(* joining with '.' is injective on such names: two different (context, publisher, signal)
+   triples never share a table entry *)
+Theorem C07_join_dot_injective : forall c p s c' p' s',
+  nodot c = true -> nodot p = true -> nodot c' = true -> nodot p' = true ->
+  key3 c p s = key3 c' p' s' -> c = c' /\ p = p' /\ s = s'.
+Proof. exact key3_inj. Qed.
+Print Assumptions C07_join_dot_injective.
+
+Theorem C07_join_dot_injective2 : forall p s p' s',
+  nodot p = true -> nodot p' = true -> key2 p s = key2 p' s' -> p = p' /\ s = s'.
+Proof. exact key2_inj. Qed.
+Print Assumptions C07_join_dot_injective2.
+
+(* the prefix tests of handle_object_removed / handle_peer_context_removed select exactly the
+   entries of that object / that context *)
+Theorem C07_prefix_tests_exact :
+  (forall x c p s, nodot x = true -> nodot c = true -> (startswith (x ++ [DOT]) (key3 c p s) = true <-> x = c)) /\
+  (forall me o c p s, nodot me = true -> nodot o = true -> nodot c = true -> nodot p = true ->
+     (startswith (me ++ DOT :: o ++ [DOT]) (key3 c p s) = true <-> me = c /\ o = p)) /\
+  (forall o p s, nodot o = true -> nodot p = true -> (startswith (o ++ [DOT]) (key2 p s) = true <-> o = p)).
+Proof. exact (conj prefix_ctx (conj prefix_obj3 prefix_obj2)). Qed.
+Print Assumptions C07_prefix_tests_exact.
+
+(* every key stored in the tables of a reachable state is such a join *)
+Theorem C07_keys_well_formed : forall nm objs n,
+  nodot nm = true -> reachable nm objs n ->
+  (forall k l, In (k, l) (n_lsubs n) -> wf3 k) /\ (forall k q, In (k, q) (n_pname n) -> wf3 k) /\
+  (forall k l, In (k, l) (n_rsubs n) -> wf2 k).
+Proof. intros nm objs n Hd Hr. destruct (reachable_NInv _ _ _ Hd Hr) as [_ (_ & H1 & H2 & H3)]. exact (conj H1 (conj H2 H3)). Qed.
+Print Assumptions C07_keys_well_formed.
+
+(* publish_signal takes as receivers exactly the set stored for (own context, publisher, signal)
+   at that moment ... *)
+Theorem C07_snapshot_exact : forall n p s a n' os,
+  node_step n (IPubBegin p s a) = Some (n', os) -> valid_name p = true -> valid_name s = true ->
+  os = [] /\ n_log n' = n_log n /\
+  n_jobs n' = n_jobs n ++ [mkJob (n_jobctr n) p s a (opt_list (alookup str_eqb (key3 (n_name n) p s) (n_lsubs n)))
+                                 (opt_list (alookup str_eqb (key3 (n_name n) p s) (n_lsubs n))) None []].
+Proof. exact snapshot_exact. Qed.
+Print Assumptions C07_snapshot_exact.
+
+(* ... and in every reachable state, whatever other threads and peers did in between, every
+   receiver of that snapshot already served has exactly one record of the publication, every other
+   receiver none; the records carry the published publisher, signal and arguments *)
+Theorem C07_local_exactly_once : forall nm objs n b,
+  nodot nm = true -> reachable nm objs n -> In b (n_jobs n) ->
+  NoDup (j_snap b) /\
+  (forall r, cnt nm (j_id b) r (n_log n) = if smem N.eqb r (j_snap b) && negb (smem N.eqb r (j_todo b)) then 1%nat else 0%nat) /\
+  (forall r c p s a, In (r, (c, p, s, a), j_id b) (n_log n) -> c = nm ->
+     p = j_pub b /\ s = j_sig b /\ a = j_args b /\ In r (j_snap b)).
+Proof. exact local_exactly_once. Qed.
+Print Assumptions C07_local_exactly_once.
+
+(* a delivered signal message appends exactly one record (source context, publisher, signal, args)
+   per receiver stored for that triple at delivery time, and nothing else *)
+Theorem C07_deliver_exactly_once : forall n from p s a j n' os,
+  node_step n (IRecv from (MSignal p s a j)) = Some (n', os) ->
+  os = [] /\
+  n_log n' = rev (mk_entries from p s a j (opt_list (alookup str_eqb (key3 from p s) (n_lsubs n)))) ++ n_log n.
+Proof. exact deliver_exact. Qed.
+Print Assumptions C07_deliver_exactly_once.
+
+(* unsubscribe takes effect when it returns: the receiver is not in the table entry, so
+   (C07_snapshot_exact) not in any later snapshot, and (below) gets no record of such a publication *)
+Theorem C07_after_unsub : forall n c p s r n' os,
+  node_step n (IUnsub c p s r) = Some (n', os) -> names_ok (resolve_ctx n c) p s = true ->
+  smem N.eqb r (opt_list (alookup str_eqb (key3 (resolve_ctx n c) p s) (n_lsubs n'))) = false.
+Proof. exact after_unsub. Qed.
+Print Assumptions C07_after_unsub.
+
+Theorem C07_not_in_snapshot_no_record : forall nm objs n b r,
+  nodot nm = true -> reachable nm objs n -> In b (n_jobs n) -> ~ In r (j_snap b) ->
+  cnt nm (j_id b) r (n_log n) = 0%nat.
+Proof. exact not_in_snapshot_no_record. Qed.
+Print Assumptions C07_not_in_snapshot_no_record.
+
+(* non-vacuity: a concrete history with two receivers, a publication interleaved with an unsubscribe *)
+Example C07_example :
+  let nm := [110] in let p := [112] in let s := [115] in
+  exists n os, node_run (init_node nm [p])
+     [ISub 1 [] p s 1; ISub 2 [] p s 2; IPubBegin p s 7%Z; IUnsub [] p s 2; IPubDeliver 0 2; IPubDeliver 0 1;
+      IPubSnapRemote 0; IPubBegin p s 8%Z; IPubDeliver 1 1] = Some (n, os) /\
+    cnt nm 0 2 (n_log n) = 1%nat /\ cnt nm 1 2 (n_log n) = 0%nat /\ cnt nm 1 1 (n_log n) = 1%nat.
+Proof. vm_compute. eexists. eexists. repeat split. Qed.
